@@ -605,7 +605,7 @@ func slowCloseCase(rng *rand.Rand) *wire.Case {
 	if stop == 1 {
 		cancel()
 	}
-	sc.Close()
+	closed := safeClose(sc)
 	inReadAtReturn := atomic.LoadInt32(&sr.inRead)
 	callsAtReturn := atomic.LoadInt64(&sr.calls)
 	time.Sleep(15 * time.Millisecond)
@@ -615,10 +615,25 @@ func slowCloseCase(rng *rand.Rand) *wire.Case {
 	c.Int(6).Int(int64(procs)).Bool(!f.Header)
 	itemsToks(c, f)
 	c.Int(int64(stop)).Ints(ids).Int(int64(inReadAtReturn)).Int(later).Int(int64(leaked))
+	if !closed {
+		c.OracleFail = "Close did not return within 8 s"
+	}
 	c.Desc = map[string]interface{}{"procs": procs, "header": f.Header, "items": f.Items, "reader": "sleeps " + sr.delay.String() + " per Read, 40 bytes per Read",
 		"scans_before_stop": k, "stop": []string{"Close", "cancel then Close", "Header then Close"}[stop], "delivered": ids,
 		"reads_in_progress_when_Close_returned": inReadAtReturn, "read_calls_begun_after_Close_returned": later, "goroutines_left": leaked}
 	return c
+}
+
+// safeClose calls Close under a watchdog; false = it did not return within 8 s.
+func safeClose(sc *osmpbf.Scanner) bool {
+	done := make(chan struct{})
+	go func() { sc.Close(); close(done) }()
+	select {
+	case <-done:
+		return true
+	case <-time.After(8 * time.Second):
+		return false
+	}
 }
 
 func corrupt(c *wire.Case, kind int) *wire.Case {
@@ -650,6 +665,7 @@ func main() {
 	}
 	var firstPbf, firstXml *wire.Case
 	canaryDone := 0
+	aborted := false // a call hung: the remaining PBF classes would hang the same way
 	for i := 0; i < nPbf+nThird; i++ {
 		mode := 0
 		if i >= nPbf {
@@ -710,6 +726,7 @@ func main() {
 					"plan_codes": "0 Scan 1 Header 2 Err 3 Close 4 cancel 5 cancel-from-another-goroutine"}}
 			hc.Int(9)
 			w.Add(hc)
+			aborted = true
 			break
 		}
 		c := pbfCase(h)
@@ -736,26 +753,30 @@ func main() {
 	if a.Tier == "thorough" {
 		nSt *= 10
 	}
-	for i := 0; i < nSt; i++ {
+	for i := 0; i < nSt && !aborted; i++ {
 		c := stalledCase(rng, a.Seed*13+int64(i))
 		w.Add(c)
 		if c.OracleFail != "" {
-			break
+			aborted = true
 		}
 	}
 	nFr, nSl := int(12*a.Scale), int(25*a.Scale)
 	if a.Tier == "thorough" {
 		nFr, nSl = nFr*10, nSl*10
 	}
-	for i := 0; i < nFr; i++ {
+	for i := 0; i < nFr && !aborted; i++ {
 		c := foreignRunCase(rng)
 		w.Add(c)
 		if c.OracleFail != "" {
-			break
+			aborted = true
 		}
 	}
-	for i := 0; i < nSl; i++ {
-		w.Add(slowCloseCase(rng))
+	for i := 0; i < nSl && !aborted; i++ {
+		c := slowCloseCase(rng)
+		w.Add(c)
+		if c.OracleFail != "" {
+			aborted = true
+		}
 	}
 	nXc := int(30 * a.Scale)
 	if a.Tier == "thorough" {
@@ -764,7 +785,7 @@ func main() {
 	for i := 0; i < nXc; i++ {
 		w.Add(xmlCancelCase(rng))
 	}
-	for canaryDone < 2 {
+	for canaryDone < 2 && firstPbf != nil {
 		w.Add(corrupt(firstPbf, canaryDone))
 		canaryDone++
 	}
